@@ -110,8 +110,12 @@ def run_tier(pid, tier, seed, args):
             continue
         f = next((x for x in fs if x.get("recorded")), None)
         if f is None:
-            harness_err.append("failure of class %s without recorded draws" % cls)
-            continue
+            # (only the first failures of a chunk keep their draws: run this one again - a run is a function of its seed)
+            again = H.execute(prop, fs[0]["params"], fs[0]["seed"])
+            if again["ok"] or again["cls"] != cls:
+                harness_err.append("failure of class %s (seed %d) did not recur when run again: %s" % (cls, fs[0]["seed"], again.get("cls")))
+                continue
+            f = dict(fs[0], recorded=again["recorded"], detail=again["detail"], digest=again["digest"], report=again.get("report"))
         rec, res = f["recorded"], None
         log = []
         if not args.no_shrink:
